@@ -161,8 +161,18 @@ func compareWithModel(driver string, hr *historyResult) (int, string, string, er
 	var step int
 	var impl, model string
 	var err error
-	// 0..5: one policy for every map range; from 6 on: an own pseudo-random order per range
-	for ord := 0; ord < 6+30; ord++ {
+	// map order 0..5: one policy for every map range; from 6 on: an own pseudo-random order per
+	// range. Scheduler policy (ord / 36): 0 = oldest head item first, 1 = newest first, 2.. = random.
+	var ords []int
+	for ord := 0; ord < 36; ord++ {
+		ords = append(ords, ord)
+	}
+	for sched := 1; sched <= 3; sched++ {
+		for _, mo := range []int{0, 6, 7, 8, 9, 10, 11, 12, 13, 14, 15, 16} {
+			ords = append(ords, sched*36+mo)
+		}
+	}
+	for _, ord := range ords {
 		step, impl, model, err = compareWithModelOrd(driver, hr, ord)
 		if err != nil || step < 0 {
 			return step, impl, model, err
